@@ -8,6 +8,9 @@ import (
 	"time"
 )
 
+// maxJournalLineLength bounds the length of one line of the journal.
+const maxJournalLineLength = 16 * 1024 * 1024
+
 func NewClusterCounter(from time.Time, to time.Time) *ClusterCounter {
 	return &ClusterCounter{from: from, to: to}
 }
@@ -29,6 +32,10 @@ func (c ClusterCounter) Count(reader io.Reader) (*ClusterCountResult, error) {
 		return nil, err
 	}
 	inputScanner := bufio.NewScanner(reader)
+	// One chunk is one line; a line grows with the number of addresses in
+	// the chunk, up to about 350 KiB for a sketch in its dense form. The
+	// default limit of bufio.Scanner is 64 KiB.
+	inputScanner.Buffer(make([]byte, 0, bufio.MaxScanTokenSize), maxJournalLineLength)
 	for inputScanner.Scan() {
 		inputLine := inputScanner.Bytes()
 		sinkInfo := SinkEntry{}
@@ -54,6 +61,9 @@ func (c ClusterCounter) Count(reader io.Reader) (*ClusterCountResult, error) {
 		if err != nil {
 			return nil, err
 		}
+	}
+	if err := inputScanner.Err(); err != nil {
+		return nil, err
 	}
 	result.Sum = counter.Count()
 	return &result, nil
